@@ -1804,6 +1804,9 @@ class Common(Statement):
             s = ", ".join(s)
             if name:
                 bits.append("/ %s / %s" % (name, s))
+            elif bits:
+                # blank common after a named block: the slashes are needed
+                bits.append("// %s" % (s))
             else:
                 bits.append(s)
         tab = self.get_indent_tab(isfix=isfix)
